@@ -12,6 +12,7 @@ mod verif_oracle {
         if let Some(r) = crate::config::verif_probe::handle(op, v) { return r; }
         if let Some(r) = crate::server::verif_probe::handle(op, v) { return r; }
         if let Some(r) = crate::pool::verif_probe::handle(op, v) { return r; }
+        if let Some(r) = crate::client::verif_probe::handle(op, v) { return r; }
         if let Some(r) = crate::plugins::table_access::verif_probe::handle(op, v) { return r; }
         json!({"error": format!("unknown op {}", op)})
     }
